@@ -1,15 +1,549 @@
+//! Drivers for the decoder: call histories on `H263State`, the picture-header parser, and the
+//! reconstruction primitives reached through the verification hooks.
+
+use crate::rdr::{err_name, Growing};
+use crate::{bytes, guarded, ints};
+use h263_rs::parser::{decode_picture, H263Reader};
+use h263_rs::verif_hooks as hk;
+use h263_rs::{DecoderOption, H263State, PictureTypeCode};
 use serde_json::{json, Value};
+use std::cell::RefCell;
+use std::collections::HashMap;
+use std::rc::Rc;
+
+pub struct Dec {
+    pub state: H263State,
+    pub reader: H263Reader<Growing>,
+    pub src: Growing,
+}
+
 #[derive(Default)]
-pub struct Ctx {}
-fn stub(cmd: &Value) -> Value {
+pub struct Ctx {
+    pub decs: HashMap<i64, Dec>,
+}
+
+fn opts(cmd: &Value) -> DecoderOption {
+    let mut o = DecoderOption::empty();
+    if cmd["sor"].as_bool().unwrap_or(true) {
+        o |= DecoderOption::SORENSON_SPARK_BITSTREAM;
+    }
+    if cmd["scal"].as_bool().unwrap_or(false) {
+        o |= DecoderOption::USE_SCALABILITY_MODE;
+    }
+    o
+}
+
+fn fresh_reader() -> (H263Reader<Growing>, Growing) {
+    let g = Growing { data: Rc::new(RefCell::new((Vec::new(), 0, 0))) };
+    (H263Reader::from_source(g.clone()), g)
+}
+
+pub fn ptype_name(t: PictureTypeCode) -> String {
+    match t {
+        PictureTypeCode::IFrame => "I".into(),
+        PictureTypeCode::PFrame => "P".into(),
+        PictureTypeCode::DisposablePFrame => "D".into(),
+        PictureTypeCode::PbFrame => "PB".into(),
+        PictureTypeCode::ImprovedPbFrame => "IPB".into(),
+        PictureTypeCode::BFrame => "B".into(),
+        PictureTypeCode::EiFrame => "EI".into(),
+        PictureTypeCode::EpFrame => "EP".into(),
+        PictureTypeCode::Reserved(r) => format!("R{}", r),
+    }
+}
+
+fn probe(r: &mut H263Reader<Growing>) -> Value {
+    for w in [24u32, 16, 8, 4, 2, 1] {
+        if let Ok(v) = r.peek_bits::<u32>(w) {
+            return json!([w, v]);
+        }
+    }
+    json!([0, 0])
+}
+
+/// Projects the decoder's observable state into the event.
+fn observe(d: &mut Dec, ev: &mut Value, planes: bool) {
+    let (last, refp, keys) = d.state.verif_abstract_state();
+    ev["last"] = json!(last.map(|v| v as i64).unwrap_or(-1));
+    ev["ref"] = json!(refp.map(|v| v as i64).unwrap_or(-1));
+    ev["keys"] = json!(keys);
+    match d.state.get_last_picture() {
+        Some(p) => {
+            ev["has_last"] = json!(true);
+            let h = p.as_header();
+            ev["hdr"] = json!({
+                "tr": h.temporal_reference,
+                "pt": ptype_name(h.picture_type),
+                "q": h.quantizer,
+                "db": if h.options.contains(h263_rs::PictureOption::USE_DEBLOCKER) {1} else {0},
+            });
+            let (w, hh) = p.format().into_width_and_height().unwrap_or((0, 0));
+            ev["w"] = json!(w);
+            ev["h"] = json!(hh);
+            ev["cspr"] = json!(p.chroma_samples_per_row());
+            let (y, cb, cr) = p.as_yuv();
+            if planes {
+                ev["y"] = json!(y);
+                ev["cb"] = json!(cb);
+                ev["cr"] = json!(cr);
+            } else {
+                ev["ylen"] = json!(y.len());
+                ev["clen"] = json!(cb.len());
+            }
+        }
+        None => {
+            ev["has_last"] = json!(false);
+        }
+    }
+    ev["probe"] = probe(&mut d.reader);
+}
+
+pub fn history(ctx: &mut Ctx, cmd: &Value) -> Vec<Value> {
     let mut ev = cmd.clone();
-    ev["ret"] = json!("harness:unimplemented");
+    let id = cmd["d"].as_i64().unwrap_or(0);
+    let op = cmd["op"].as_str().unwrap_or("");
+    let planes = cmd["planes"].as_bool().unwrap_or(true);
+    match op {
+        "new" => {
+            let (reader, src) = fresh_reader();
+            ctx.decs.insert(id, Dec { state: H263State::new(opts(cmd)), reader, src });
+            ev["ret"] = json!("ok");
+            ev["rc"] = json!("ok");
+        }
+        "newreader" => match ctx.decs.get_mut(&id) {
+            Some(d) => {
+                let (reader, src) = fresh_reader();
+                d.reader = reader;
+                d.src = src;
+                ev["ret"] = json!("ok");
+                ev["rc"] = json!("ok");
+            }
+            None => ev["ret"] = json!("harness:no-such-decoder"),
+        },
+        "append" => match ctx.decs.get_mut(&id) {
+            Some(d) => {
+                let b = bytes(&cmd["bytes"]);
+                let mut s = d.src.data.borrow_mut();
+                s.0.extend_from_slice(&b);
+                s.1 = s.0.len();
+                ev["ret"] = json!("ok");
+                ev["rc"] = json!("ok");
+            }
+            None => ev["ret"] = json!("harness:no-such-decoder"),
+        },
+        "decode" => match ctx.decs.get_mut(&id) {
+            Some(d) => {
+                {
+                    let b = bytes(&cmd["bytes"]);
+                    let mut s = d.src.data.borrow_mut();
+                    s.0.extend_from_slice(&b);
+                    s.1 = s.0.len();
+                }
+                let r = guarded(|| d.state.decode_next_picture(&mut d.reader));
+                match r {
+                    Ok(Ok(())) => {
+                        ev["ret"] = json!("ok");
+                        ev["rc"] = json!("ok");
+                    }
+                    Ok(Err(e)) => {
+                        ev["ret"] = json!(err_name(&e));
+                        ev["rc"] = json!("err");
+                    }
+                    Err(m) => {
+                        ev["ret"] = json!(format!("panic:{}", m));
+                        ev["rc"] = json!("panic");
+                    }
+                }
+                if ev["rc"] != "panic" {
+                    let o = guarded(|| observe(d, &mut ev, planes));
+                    if let Err(m) = o {
+                        ev["ret"] = json!(format!("panic:observe:{}", m));
+                        ev["rc"] = json!("panic");
+                    }
+                } else {
+                    // the decoder may be in any state after unwinding out of it: discard it
+                    ctx.decs.remove(&id);
+                }
+            }
+            None => ev["ret"] = json!("harness:no-such-decoder"),
+        },
+        "cleanup" => match ctx.decs.get_mut(&id) {
+            Some(d) => {
+                match guarded(|| d.state.cleanup_buffers()) {
+                    Ok(()) => {
+                        ev["ret"] = json!("ok");
+                        ev["rc"] = json!("ok");
+                        observe(d, &mut ev, planes);
+                    }
+                    Err(m) => {
+                        ev["ret"] = json!(format!("panic:{}", m));
+                        ev["rc"] = json!("panic");
+                    }
+                }
+            }
+            None => ev["ret"] = json!("harness:no-such-decoder"),
+        },
+        "post" => match ctx.decs.get_mut(&id) {
+            // C13: deblock each plane with the strength tabulated for the picture's quantizer, convert
+            Some(d) => {
+                let r = guarded(|| {
+                    let p = d.state.get_last_picture().expect("no picture");
+                    let (w, _h) = p.format().into_width_and_height().unwrap();
+                    let q = p.as_header().quantizer as usize;
+                    let s = h263_rs_deblock::deblock::QUANT_TO_STRENGTH[q.min(31)];
+                    let (y, cb, cr) = p.as_yuv();
+                    let cw = p.chroma_samples_per_row();
+                    let y2 = h263_rs_deblock::deblock::deblock(y, w as usize, s);
+                    let cb2 = h263_rs_deblock::deblock::deblock(cb, cw, s);
+                    let cr2 = h263_rs_deblock::deblock::deblock(cr, cw, s);
+                    let rgba = h263_rs_yuv::bt601::yuv420_to_rgba(&y2, &cb2, &cr2, w as usize);
+                    (s, y.to_vec(), cb.to_vec(), cr.to_vec(), cw, w, q, rgba)
+                });
+                match r {
+                    Ok((s, y, cb, cr, cw, w, q, rgba)) => {
+                        ev["ret"] = json!("ok");
+                        ev["rc"] = json!("ok");
+                        ev["s"] = json!(s);
+                        ev["q"] = json!(q);
+                        ev["w"] = json!(w);
+                        ev["cw"] = json!(cw);
+                        ev["y"] = json!(y);
+                        ev["cb"] = json!(cb);
+                        ev["cr"] = json!(cr);
+                        ev["len"] = json!(rgba.len());
+                        ev["out"] = json!(rgba
+                            .chunks(4)
+                            .map(|p| ((p[0] as i64) - 128) * 16_777_216 + (p[1] as i64) * 65_536 + (p[2] as i64) * 256 + p[3] as i64)
+                            .collect::<Vec<_>>());
+                    }
+                    Err(m) => {
+                        ev["ret"] = json!(format!("panic:{}", m));
+                        ev["rc"] = json!("panic");
+                    }
+                }
+            }
+            None => ev["ret"] = json!("harness:no-such-decoder"),
+        },
+        _ => ev["ret"] = json!("harness:unknown-op"),
+    }
+    vec![ev]
+}
+
+/// {"op":"header","sor":..,"scal":..,"bytes":[..],"prev":{...}?}: parser::decode_picture alone.
+pub fn header(cmd: &Value) -> Value {
+    let mut ev = cmd.clone();
+    let b = bytes(&cmd["bytes"]);
+    let g = Growing { data: Rc::new(RefCell::new((b.clone(), b.len(), 0))) };
+    let mut rd = H263Reader::from_source(g);
+    let o = opts(cmd);
+    let prev = build_prev(&cmd["prev"]);
+    let r = guarded(|| decode_picture(&mut rd, o, prev.as_ref()));
+    match r {
+        Ok(Ok(Some(p))) => {
+            ev["ret"] = json!("ok");
+            ev["rc"] = json!("ok");
+            ev["hdr"] = picture_json(&p);
+        }
+        Ok(Ok(None)) => {
+            ev["ret"] = json!("none");
+            ev["rc"] = json!("none");
+        }
+        Ok(Err(e)) => {
+            ev["ret"] = json!(err_name(&e));
+            ev["rc"] = json!("err");
+        }
+        Err(m) => {
+            ev["ret"] = json!(format!("panic:{}", m));
+            ev["rc"] = json!("panic");
+        }
+    }
+    ev["probe"] = probe(&mut rd);
     ev
 }
-pub fn idct(cmd: &Value) -> Value { stub(cmd) }
-pub fn rle(cmd: &Value) -> Value { stub(cmd) }
-pub fn mv(cmd: &Value) -> Value { stub(cmd) }
-pub fn cand(cmd: &Value) -> Value { stub(cmd) }
-pub fn chroma_mv(cmd: &Value) -> Value { stub(cmd) }
-pub fn header(cmd: &Value) -> Value { stub(cmd) }
-pub fn history(_ctx: &mut Ctx, cmd: &Value) -> Vec<Value> { vec![stub(cmd)] }
+
+fn build_prev(v: &Value) -> Option<hk::Picture> {
+    if !v.is_object() {
+        return None;
+    }
+    let fmt = match v["fmt"].as_i64().unwrap_or(-1) {
+        1 => Some(hk::SourceFormat::SubQcif),
+        2 => Some(hk::SourceFormat::QuarterCif),
+        3 => Some(hk::SourceFormat::FullCif),
+        4 => Some(hk::SourceFormat::FourCif),
+        5 => Some(hk::SourceFormat::SixteenCif),
+        6 => Some(hk::SourceFormat::Extended(hk::CustomPictureFormat {
+            pixel_aspect_ratio: hk::PixelAspectRatio::Square,
+            picture_width_indication: v["w"].as_u64().unwrap_or(16) as u16,
+            picture_height_indication: v["h"].as_u64().unwrap_or(16) as u16,
+        })),
+        _ => None,
+    };
+    Some(hk::Picture {
+        version: None,
+        temporal_reference: 0,
+        format: fmt,
+        options: hk::PictureOption::from_bits_truncate(v["options"].as_u64().unwrap_or(0) as u32),
+        has_plusptype: v["plus"].as_bool().unwrap_or(true),
+        has_opptype: v["opp"].as_bool().unwrap_or(true),
+        picture_type: PictureTypeCode::IFrame,
+        motion_vector_range: None,
+        slice_submode: None,
+        scalability_layer: None,
+        reference_picture_selection_mode: None,
+        prediction_reference: None,
+        backchannel_message: None,
+        reference_picture_resampling: None,
+        quantizer: 1,
+        multiplex_bitstream: None,
+        pb_reference: None,
+        pb_quantizer: None,
+        extra: vec![],
+    })
+}
+
+fn picture_json(p: &hk::Picture) -> Value {
+    let (fmt, w, h, par, parw, parh) = match p.format {
+        None => (-1, 0, 0, -1, 0, 0),
+        Some(hk::SourceFormat::SubQcif) => (1, 128, 96, -1, 0, 0),
+        Some(hk::SourceFormat::QuarterCif) => (2, 176, 144, -1, 0, 0),
+        Some(hk::SourceFormat::FullCif) => (3, 352, 288, -1, 0, 0),
+        Some(hk::SourceFormat::FourCif) => (4, 704, 576, -1, 0, 0),
+        Some(hk::SourceFormat::SixteenCif) => (5, 1408, 1152, -1, 0, 0),
+        Some(hk::SourceFormat::Reserved) => (0, 0, 0, -1, 0, 0),
+        Some(hk::SourceFormat::Extended(c)) => {
+            let (par, pw, ph) = match c.pixel_aspect_ratio {
+                hk::PixelAspectRatio::Square => (1, 0, 0),
+                hk::PixelAspectRatio::Par12_11 => (2, 0, 0),
+                hk::PixelAspectRatio::Par10_11 => (3, 0, 0),
+                hk::PixelAspectRatio::Par16_11 => (4, 0, 0),
+                hk::PixelAspectRatio::Par40_33 => (5, 0, 0),
+                hk::PixelAspectRatio::Reserved(r) => (r as i64, 0, 0),
+                hk::PixelAspectRatio::Extended { par_width, par_height } => (15, par_width as i64, par_height as i64),
+            };
+            (6, c.picture_width_indication as i64, c.picture_height_indication as i64, par, pw, ph)
+        }
+    };
+    json!({
+        "version": p.version.map(|v| v as i64).unwrap_or(-1),
+        "tr": p.temporal_reference,
+        "fmt": fmt, "w": w, "h": h, "par": par, "parw": parw, "parh": parh,
+        "options": p.options.bits(),
+        "plus": p.has_plusptype,
+        "opp": p.has_opptype,
+        "pt": ptype_name(p.picture_type),
+        "mvr": match p.motion_vector_range { None => -1, Some(hk::MotionVectorRange::Extended) => 1, Some(hk::MotionVectorRange::Unlimited) => 2 },
+        "sss": p.slice_submode.as_ref().map(|s| s.bits() as i64).unwrap_or(-1),
+        "elnum": p.scalability_layer.as_ref().map(|s| s.enhancement as i64).unwrap_or(-1),
+        "rlnum": p.scalability_layer.as_ref().and_then(|s| s.reference).map(|v| v as i64).unwrap_or(-1),
+        "rpsmf": p.reference_picture_selection_mode.as_ref().map(|s| s.bits() as i64).unwrap_or(-1),
+        "trp": p.prediction_reference.map(|v| v as i64).unwrap_or(-1),
+        "bcm": p.backchannel_message.is_some(),
+        "rprp": p.reference_picture_resampling.is_some(),
+        "q": p.quantizer,
+        "psbi": p.multiplex_bitstream.map(|v| v as i64).unwrap_or(-1),
+        "trb": p.pb_reference.map(|v| v as i64).unwrap_or(-1),
+        "dbq": match p.pb_quantizer { None => -1, Some(hk::BPictureQuantizer::Five) => 0, Some(hk::BPictureQuantizer::Six) => 1,
+                                      Some(hk::BPictureQuantizer::Seven) => 2, Some(hk::BPictureQuantizer::Eight) => 3 },
+        "extra": p.extra,
+    })
+}
+
+// ------------------------------------------------------------------ primitives through the hooks
+
+fn block_from(v: &Value) -> hk::DecodedDctBlock {
+    let c: Vec<f32> = ints(&v["c"]).into_iter().map(|x| x as f32).collect();
+    match v["k"].as_str().unwrap_or("full") {
+        "zero" => hk::DecodedDctBlock::Zero,
+        "dc" => hk::DecodedDctBlock::Dc(c[0]),
+        "horiz" => {
+            let mut a = [0f32; 8];
+            a.copy_from_slice(&c[0..8]);
+            hk::DecodedDctBlock::Horiz(a)
+        }
+        "vert" => {
+            let mut a = [0f32; 8];
+            for i in 0..8 {
+                a[i] = c[i * 8];
+            }
+            hk::DecodedDctBlock::Vert(a)
+        }
+        _ => {
+            let mut a = [[0f32; 8]; 8];
+            for r in 0..8 {
+                for cc in 0..8 {
+                    a[r][cc] = c[r * 8 + cc];
+                }
+            }
+            hk::DecodedDctBlock::Full(a)
+        }
+    }
+}
+
+/// {"op":"idct","blocks":[{"k":"full|dc|horiz|vert|zero","c":[64 ints row-major v*8+u]}..],"base":B}
+/// Each block is transformed alone by idct_channel over an 8x8 output pre-filled with `base`.
+pub fn idct(cmd: &Value) -> Value {
+    let mut ev = cmd.clone();
+    let base = cmd["base"].as_u64().unwrap_or(0) as u8;
+    let blocks = cmd["blocks"].as_array().cloned().unwrap_or_default();
+    let r = guarded(|| {
+        let mut outs = Vec::new();
+        for b in &blocks {
+            let blk = [block_from(b)];
+            let mut out = vec![base; 64];
+            hk::idct_channel(&blk, &mut out, 1, 8);
+            outs.push(out);
+        }
+        outs
+    });
+    match r {
+        Ok(o) => {
+            ev["ret"] = json!("ok");
+            ev["out"] = json!(o);
+        }
+        Err(m) => ev["ret"] = json!(format!("panic:{}", m)),
+    }
+    ev
+}
+
+fn dct_block_json(b: &hk::DecodedDctBlock) -> Value {
+    let mut c = vec![0i64; 64];
+    let kind = match b {
+        hk::DecodedDctBlock::Zero => "zero",
+        hk::DecodedDctBlock::Dc(v) => {
+            c[0] = *v as i64;
+            "dc"
+        }
+        hk::DecodedDctBlock::Horiz(r) => {
+            for i in 0..8 {
+                c[i] = r[i] as i64;
+            }
+            "horiz"
+        }
+        hk::DecodedDctBlock::Vert(r) => {
+            for i in 0..8 {
+                c[i * 8] = r[i] as i64;
+            }
+            "vert"
+        }
+        hk::DecodedDctBlock::Full(m) => {
+            for r in 0..8 {
+                for cc in 0..8 {
+                    c[r * 8 + cc] = m[r][cc] as i64;
+                }
+            }
+            "full"
+        }
+    };
+    json!({"k": kind, "c": c})
+}
+
+/// {"op":"rle","q":Q,"dc":code|-1,"ev":[[run,level],..]} -> coefficients produced by inverse_rle
+pub fn rle(cmd: &Value) -> Value {
+    let mut ev = cmd.clone();
+    let q = cmd["q"].as_u64().unwrap_or(1) as u8;
+    let dc = cmd["dc"].as_i64().unwrap_or(-1);
+    let evs: Vec<(u8, i16)> = cmd["ev"]
+        .as_array()
+        .map(|a| a.iter().map(|e| (e[0].as_u64().unwrap_or(0) as u8, e[1].as_i64().unwrap_or(0) as i16)).collect())
+        .unwrap_or_default();
+    let r = guarded(|| {
+        let block = hk::Block {
+            intradc: if dc >= 0 { hk::IntraDc::from_u8(dc as u8) } else { None },
+            tcoef: evs.iter().map(|(run, level)| hk::TCoefficient { is_short: false, run: *run, level: *level }).collect(),
+        };
+        let mut levels = vec![hk::DecodedDctBlock::Zero; 1];
+        hk::inverse_rle(&block, &mut levels, (0, 0), 1, q);
+        (dct_block_json(&levels[0]), block.intradc.is_some())
+    });
+    match r {
+        Ok((b, dc_ok)) => {
+            ev["ret"] = json!("ok");
+            ev["blk"] = b;
+            ev["dc_accepted"] = json!(dc_ok);
+        }
+        Err(m) => ev["ret"] = json!(format!("panic:{}", m)),
+    }
+    ev
+}
+
+fn mv_from(v: &Value) -> hk::MotionVector {
+    (hk::HalfPel::from_unit(v[0].as_i64().unwrap_or(0) as i16), hk::HalfPel::from_unit(v[1].as_i64().unwrap_or(0) as i16)).into()
+}
+
+fn hp_units(h: hk::HalfPel) -> i64 {
+    let (whole, half) = h.into_lerp_parameters();
+    (whole as i64) * 2 + if half { 1 } else { 0 }
+}
+
+fn mv_json(m: hk::MotionVector) -> Value {
+    let (x, y): (hk::HalfPel, hk::HalfPel) = m.into();
+    json!([hp_units(x), hp_units(y)])
+}
+
+fn dummy_picture() -> hk::DecodedPicture {
+    let hdr = build_prev(&json!({"fmt": 6, "w": 16, "h": 16, "plus": false, "opp": false})).unwrap();
+    let fmt = hdr.format.unwrap();
+    hk::DecodedPicture::new(hdr, fmt).unwrap()
+}
+
+/// {"op":"mv","pairs":[[pred,diff],..]} -> mv_decode component results (standard range, no options)
+pub fn mv(cmd: &Value) -> Value {
+    let mut ev = cmd.clone();
+    let pairs = cmd["pairs"].as_array().cloned().unwrap_or_default();
+    let r = guarded(|| {
+        let pic = dummy_picture();
+        let mut out = Vec::new();
+        for p in &pairs {
+            let pred = p[0].as_i64().unwrap() as i16;
+            let diff = p[1].as_i64().unwrap() as i16;
+            let m = hk::mv_decode(
+                &pic,
+                h263_rs::PictureOption::empty(),
+                (hk::HalfPel::from_unit(pred), hk::HalfPel::from_unit(diff)).into(),
+                (hk::HalfPel::from_unit(diff), hk::HalfPel::from_unit(pred)).into(),
+            );
+            out.push(mv_json(m));
+        }
+        out
+    });
+    match r {
+        Ok(o) => {
+            ev["ret"] = json!("ok");
+            ev["out"] = json!(o);
+        }
+        Err(m) => ev["ret"] = json!(format!("panic:{}", m)),
+    }
+    ev
+}
+
+/// {"op":"cand","mbw":W,"mvs":[[[x,y]x4]..],"cur":[[x,y]x4],"blk":B} -> predict_candidate
+pub fn cand(cmd: &Value) -> Value {
+    let mut ev = cmd.clone();
+    let mbw = cmd["mbw"].as_u64().unwrap_or(1) as usize;
+    let blk = cmd["blk"].as_u64().unwrap_or(0) as usize;
+    let four = |v: &Value| -> [hk::MotionVector; 4] { [mv_from(&v[0]), mv_from(&v[1]), mv_from(&v[2]), mv_from(&v[3])] };
+    let mvs: Vec<[hk::MotionVector; 4]> = cmd["mvs"].as_array().map(|a| a.iter().map(four).collect()).unwrap_or_default();
+    let cur = four(&cmd["cur"]);
+    match guarded(|| hk::predict_candidate(&mvs, &cur, mbw, blk)) {
+        Ok(m) => {
+            ev["ret"] = json!("ok");
+            ev["out"] = mv_json(m);
+        }
+        Err(m) => ev["ret"] = json!(format!("panic:{}", m)),
+    }
+    ev
+}
+
+/// {"op":"chroma_mv","sums":[..]} -> MotionVector::average_sum_of_mvs per component
+pub fn chroma_mv(cmd: &Value) -> Value {
+    let mut ev = cmd.clone();
+    let sums = ints(&cmd["sums"]);
+    match guarded(|| sums.iter().map(|s| hp_units(hk::HalfPel::from_unit(*s as i16).average_sum_of_mvs())).collect::<Vec<_>>()) {
+        Ok(o) => {
+            ev["ret"] = json!("ok");
+            ev["out"] = json!(o);
+        }
+        Err(m) => ev["ret"] = json!(format!("panic:{}", m)),
+    }
+    ev
+}
